@@ -16,7 +16,7 @@ func init() {
 	register(&propDef{
 		ID:  "C19",
 		Run: runC19,
-		Explain: "Decided: (a) every panic-capable construct and loop in pkg/expressions/stdmath, kfMath and its context wrapper is discharged (same engine and reviewed table as C08); (b) the operator tables agree: keys(ops) = flatten(orderOfOps) with no duplicates, every key is non-empty and no longer than the tokenizer's prefix window, the single-character unary operators are exactly those the tokenizer can see, and the precedence rows are ordered as documented (^ above * / % above + - above comparisons above && ||); (c) the simplifier's probe is sound in structure: Expr.Eval methods reach the context only through GetMatch/GetKey or a sub-expression's Eval, both probe-context methods count every lookup, simplify folds only under hits == 0, and all operator functions and Eval methods are pure (no writes to non-local state, no ambient reads); (d) every failure return of the tokenizer/parser carries a non-nil error and kfMath turns a compile error into a stage error. " +
+		Explain: "Decided: (a) every panic-capable construct and loop in pkg/expressions/stdmath, kfMath and its context wrapper is discharged (same engine and reviewed table as C08); (b) the operator tables agree: keys(ops) = flatten(orderOfOps) with no duplicates, every key is non-empty and no longer than the tokenizer's prefix window, the single-character unary operators are exactly those the tokenizer can see, and the precedence rows are ordered as documented (^ above * / % above + - above comparisons above && ||); (c) the simplifier's probe is sound in structure: Expr.Eval methods reach the context only through GetMatch/GetKey or a sub-expression's Eval, both probe-context methods count every lookup, simplify folds only under hits == 0, and all operator functions and Eval methods are pure (no writes to non-local state, no ambient reads); (d) every failure return of the tokenizer/parser carries a non-nil error and kfMath turns a compile error into a stage error. (e) kfMath takes its binding wrapper from the pool per evaluation, binds it before use and returns it exactly once. " +
 			"NOT decided: that evaluation follows the documented precedence and associativity for every token sequence (parser semantics), numeric results, and constant/variable equivalence beyond the structural soundness of the probe.",
 		Assume: []string{"math.* functions are pure", "reviewed panic-freedom entries (checker/c08.go) are correct"},
 	})
